@@ -892,6 +892,27 @@ func rulesC12(c *Ctx) {
 		for _, k := range []string{"minSafeInteger", "maxSafeInteger"} {
 			o := c.Obj(pM, k)
 			c.Check(up.Mentions(up.Body, o) && pe.Mentions(pe.Body, o), "integer-range:"+k, up, nil, "%s bounds both the body-side decoding and the header-side comparison", k)
+			// the bounds themselves are inside the interoperable range: a value is refused only strictly below the minimum
+			// / strictly above the maximum (plus or minus 2^53-1 must round-trip)
+			want := map[string]token.Token{"minSafeInteger": token.LSS, "maxSafeInteger": token.GTR}[k]
+			for _, f := range []*Func{up, pe} {
+				n, okB := 0, true
+				ast.Inspect(f.Body, func(x ast.Node) bool {
+					if be, isB := x.(*ast.BinaryExpr); isB {
+						if f.ObjOf(be.Y) == o {
+							n++
+							if be.Op != want {
+								okB = false
+							}
+						} else if f.ObjOf(be.X) == o {
+							n++
+							okB = false // comparisons are normalised constant-right; anything else is not the idiom
+						}
+					}
+					return true
+				})
+				c.Check(okB && n >= 1, "integer-range:"+k+":inclusive:"+f.Name(), f, nil, "%s itself is accepted (the refusing comparison is strict)", k)
+			}
 		}
 	})
 }
